@@ -22,9 +22,12 @@ def check_inherits(repo, cls, base, methods):
     return out
 
 
+_INT_CALLS = {"getpid", "getppid", "get_ident", "get_native_id", "time_ns", "monotonic_ns", "perf_counter_ns"}     # integers: no path separator
+
+
 def _plain_name_expr(e):
     """an expression that denotes a single file name (no separator): a constant without '/', or an f-string built from
-    such constants, `<path>.name` attributes and os.getpid()"""
+    such constants, `<path>.name` attributes and argument-less calls that return an integer (os.getpid(), threading.get_ident(), ...)"""
     if isinstance(e, ast.Constant):
         return isinstance(e.value, str) and "/" not in e.value and e.value not in ("", ".", "..")
     if isinstance(e, ast.JoinedStr):
@@ -35,7 +38,8 @@ def _plain_name_expr(e):
             elif isinstance(v, ast.FormattedValue):
                 x = v.value
                 if not ((isinstance(x, ast.Attribute) and x.attr == "name") or
-                        (isinstance(x, ast.Call) and isinstance(x.func, ast.Attribute) and x.func.attr == "getpid")):
+                        (isinstance(x, ast.Call) and isinstance(x.func, ast.Attribute) and not x.args and not x.keywords
+                         and x.func.attr in _INT_CALLS)):
                     return False
         return True
     return False
